@@ -595,6 +595,13 @@ def case_forgery_wipe(m, layout, fam, alg, adlen, mlen, inplace, genuine=False):
     return None
 
 
+def case_aead_session_encrypt(m, layout, alg, adlen, mlen):
+    """sender session on one incremental state (see rules_c01.check_shape, family multipacket)"""
+    from . import rules_c01
+    bad = rules_c01.check_shape(m, layout, 4, alg, "multipacket", adlen, mlen)
+    return ("session", bad[1]) if bad else None
+
+
 def case_aead_inplace(m, layout, alg, adlen, mlen):
     """incremental encrypt / decrypt with identical input and output buffers,
     split into chunks, equals the one-shot specification result"""
